@@ -469,8 +469,15 @@ theorem guardWriter_none (g : String) (o : Outcome Unit) (ho : WriterOk o)
     (hc : catchAction "datagrams_to_send" g .builderStop = some .pass) : guardWriter g o = none := by
   rcases ho with h | h <;> subst h <;> simp [guardWriter, hc]
 
-theorem datagramsToSend_ok (s : St) (w : Writers) (hi : ConnInv s) (hw1 : WriterOk w.closeFrame)
-    (hw2 : WriterOk w.handshake) (hw3 : WriterOk w.application) :
+theorem guardBlock_none (g : String) (sp o : Outcome Unit) (hsp : WriterOk sp) (ho : WriterOk o)
+    (hc : catchAction "datagrams_to_send" g .builderStop = some .pass) : guardBlock g sp o = none := by
+  unfold guardBlock
+  cases sp with
+  | ok u => cases u; exact guardWriter_none g o ho hc
+  | error e => exact guardWriter_none g _ hsp hc
+
+theorem datagramsToSend_ok (s : St) (w : Writers) (hi : ConnInv s) (hw0 : WriterOk w.startPacket)
+    (hw1 : WriterOk w.closeFrame) (hw2 : WriterOk w.handshake) (hw3 : WriterOk w.application) :
     ∃ s', datagramsToSend s w = .ok s' ∧ ConnInv s' := by
   unfold datagramsToSend
   obtain ⟨h1, h2, h3, h4, h5, h6⟩ := hi
@@ -482,8 +489,8 @@ theorem datagramsToSend_ok (s : St) (w : Writers) (hi : ConnInv s) (hw1 : Writer
     have hnp : 0 < s.nPaths := by omega
     have hin : s.initialized = true := h6 hnp
     have hne' : s.state.isEnd = false := by cases h : s.state.isEnd <;> simp_all
-    rw [guardWriter_none _ _ hw1 catch_close_stop, guardWriter_none _ _ hw2 catch_handshake_stop,
-      guardWriter_none _ _ hw3 catch_application_stop]
+    rw [guardBlock_none _ _ _ hw0 hw1 catch_close_stop, guardBlock_none _ _ _ hw0 hw2 catch_handshake_stop,
+      guardBlock_none _ _ _ hw0 hw3 catch_application_stop]
     split
     · refine ⟨_, rfl, ?_⟩
       simp only [St.closeBegin]
